@@ -1250,7 +1250,7 @@ fn gen(args: &Args, emit: &mut dyn FnMut(String)) {
 /// traffic that keeps objects undecodable (C17): no FDT, FDT-only OTI, missing symbols, many TOIs,
 /// FDT instances that never complete, small cache limits, time-outs with real (short) sleeps
 // symbols far longer than the encoding symbol length (D47 was found there)
-const FATSYM: bool = false;
+const FATSYM: bool = true;
 
 fn gen_mem(args: &Args, emit: &mut dyn FnMut(String)) {
     let thorough = args.tier == "thorough";
